@@ -87,6 +87,26 @@ def dispatcher_skeleton(cx, path, delegate):
         return f
     def key_arg(t):
         return {o for k, o in sl.origins(t.args[1]) if k == "arg"}
+    gt = [t for t in body.calls("=get") if "HashMap" in t.callee.resolved]
+    if not ck and not ix and len(gt) == 1:
+        # the other exact-key spelling: match self.ifaces.get(key) { Some(i) => i.<delegate>(..), None => not found }
+        g = gt[0]
+        out["lookup"] = "ifaces" in field_of(g) and key_arg(g) == {2}
+        ok_guard = ok_else = False
+        dl = [t for t in body.calls("=" + delegate)]
+        builtin = [t for t in dl if "VarlinkService" in t.callee.resolved]
+        registered = [t for t in dl if t not in builtin]
+        for b in body.blocks:
+            if b.cleanup or b.term.kind != "switch": continue
+            c = switch_cond(body, du, b.term)
+            if c.kind == "discr" and any(k == "call" and o is g for k, o in sl.origins(c.place)):
+                some = variant_edge(b.term, 1); none = variant_edge(b.term, 0)
+                ok_guard = bool(registered) and all(cfg.edge_dominates(some, t.bb) for t in registered)
+                nf = [t for t in body.calls("=reply_interface_not_found")]
+                ok_else = len(nf) == 1 and cfg.edge_dominates(none, nf[0].bb) and any(k == "arg" and o == 2 for k, o in Slice(body, du, extra_pass=("=into",)).origins(nf[0].args[1]))
+        out["index-guarded"] = ok_guard; out["else-not-found-names-iface"] = ok_else
+        out["delegates"] = len(builtin) == 1 and len(registered) == 1 and any(k == "call" and o is g for k, o in sl.origins(registered[0].args[0]))
+        return body, out
     out["lookup"] = len(ck) == 1 and len(ix) == 1 and "ifaces" in field_of(ck[0]) and "ifaces" in field_of(ix[0]) and key_arg(ck[0]) == key_arg(ix[0]) == {2}
     # index only behind contains_key == true; the delegate is called on the indexed interface
     ok_guard = False; ok_else = False
